@@ -113,10 +113,52 @@ func poolShape(mode gen.ApplicationMode) *shape {
 	}}
 }
 
+// singleShape: supervisors with exactly one child (the smallest relation sets on an owner); for this shape an outside
+// observer monitors and demonitors the victim before a kill/exit/handler-error/panic cause (applyCause)
+func singleShape(mode gen.ApplicationMode) *shape {
+	return &shape{Name: "single-" + mode.String(), Mode: mode, Group: []*nspec{
+		sup("s1", ofo, transient, false, sup("s1.s2", afo, transient, false, leaf("s1.s2.a", false))),
+		leaf("x", false),
+	}}
+}
+
+// obsActor runs closures sent to it inside its own process (an ordinary third party that monitors other processes)
+type obsActor struct{ act.Actor }
+
+func (o *obsActor) HandleMessage(from gen.PID, m any) error {
+	if f, ok := m.(func(gen.Process)); ok {
+		f(o)
+	}
+	return nil
+}
+
+// observeAndForget: a third process monitors pid and demonitors it again; must leave every other relation of pid intact
+func (x *run) observeAndForget(pid gen.PID) {
+	w := x.w
+	op, err := w.node.Spawn(func() gen.ProcessBehavior { return &obsActor{} }, gen.ProcessOptions{})
+	if err != nil {
+		w.step("observer: spawn failed: %v", err)
+		return
+	}
+	done := make(chan string, 1)
+	w.node.Send(op, func(p gen.Process) {
+		e1 := p.MonitorPID(pid)
+		e2 := p.DemonitorPID(pid)
+		done <- fmt.Sprintf("monitor: %v, demonitor: %v", e1, e2)
+	})
+	select {
+	case r := <-done:
+		w.step("observer %s on %s: %s", op, pid, r)
+	case <-time.After(5 * time.Second):
+		w.step("observer %s on %s: no answer", op, pid)
+	}
+}
+
 func shapes() []*shape {
 	tmp := gen.ApplicationModeTemporary
 	r := hk.Rng("c10", "shapes")
 	out := []*shape{
+		singleShape(tmp),
 		mkShape("ofo", permanent, "afo", transient, 0, tmp),
 		mkShape("rfo+keep", transient, "ofo", permanent, 1, tmp),
 		mkShape("afo", transient, "sofo", transient, 2, tmp),
@@ -223,6 +265,18 @@ func enumerate(sh *shape) []ccase {
 			out = append(out, ccase{sh, v.name, "childinit-err", "startup", v.name})
 			out = append(out, ccase{sh, v.name, "childinit-panic", "startup", v.name})
 		}
+	}
+	if strings.HasPrefix(sh.Name, "single-") {
+		// one-child supervisors: moments that need a sibling of the parked child (startup-childdead) or a direct
+		// leaf child of the locus (startup@s1, whose only child is a supervisor) cannot be arranged in this shape
+		var keep []ccase
+		for _, c := range out {
+			if c.Moment == "startup-childdead" || (c.Moment == "startup" && c.Locus == "s1") {
+				continue
+			}
+			keep = append(keep, c)
+		}
+		out = keep
 	}
 	return out
 }
@@ -503,6 +557,9 @@ func (x *run) applyCause() {
 		if ok == false {
 			w.step("cause %s: victim %s has no pid yet", c.Cause, c.Victim)
 			return
+		}
+		if strings.HasPrefix(c.Shape.Name, "single-") {
+			x.observeAndForget(pid)
 		}
 		var err error
 		switch c.Cause {
